@@ -124,6 +124,7 @@ inductive Err
   | unknown (name : Bytes)       -- HandleUnknownOption
   | flagArg (name : Bytes)       -- "Option ... doesn't accept an argument"
   | fileError (name : Bytes)     -- "Failed to read option file" (thrown, not reported through the handler)
+  | fileNesting (name : Bytes)   -- "Option files nested too deeply (recursive inclusion?)" (thrown; ampl/mp 5ace2c7)
   deriving DecidableEq, Repr
 
 structure St where
@@ -205,7 +206,6 @@ inductive Outcome
   | threwLogic     -- std::logic_error("Empty option name list") from the DummyOption constructor
   | threwError     -- mp::Error thrown by the (default) error handler
   | threwInvalid   -- InvalidOptionValue thrown by a setter
-  | tooDeep        -- option files nested deeper than the model follows (not reached by the generators)
   deriving DecidableEq, Repr
 
 structure Cfg where
@@ -213,8 +213,9 @@ structure Cfg where
   noEcho : Bool      -- flags & NO_OPTION_ECHO
   cmdLine : Bool     -- flags & FROM_COMMAND_LINE
   throwing : Bool    -- the installed ErrorHandler throws (BasicSolver's default one does)
-  /-- `UseOptionFile(value)` after `option_file_save_ = value`: read the file and parse its lines -/
-  onFile : Bytes → St → Outcome × St := fun _ st => (.tooDeep, st)
+  /-- `UseOptionFile(value)`: `save` is the assignment `option_file_save_ = value`, which happens
+  after the nesting test and before the file is read -/
+  onFile : Bytes → (St → St) → St → Outcome × St := fun _ _ st => (.threwError, st)
 
 inductive Step
   | done                         -- `*s == 0` after blanks: return
@@ -253,7 +254,7 @@ def parseValue (cfg : Cfg) (d : OptDecl) (s : Bytes) (st : St) : Step :=
     .cont r (doEcho cfg.noEcho d (st.modify d.id (setValue d (.str v))))
   | .optfile =>
     let (v, r) := parseStrVal cfg.cmdLine s
-    match cfg.onFile v (st.modify d.id (setValue d (.str v))) with
+    match cfg.onFile v (fun s0 => s0.modify d.id (setValue d (.str v))) st with
     | (.ok, st2) => .cont r (doEcho cfg.noEcho d st2)
     | (o, st2) => .stop o st2
 
@@ -446,19 +447,23 @@ def fileLines (content : Bytes) : List Bytes :=
     | [] => none
     | c :: _ => if c.toNat == 35 then none else some t)
 
-/-- `UseOptionFile` at nesting depth ≤ `n`: a missing file throws `mp::Error`; the lines are parsed
-with `option_flag_save_`, i.e. the flags `ParseOptions` was called with (never FROM_COMMAND_LINE
-added for argv) -/
-def fileLevel (c : Call) : Nat → Bytes → St → Outcome × St
-  | 0 => fun _ st => (.tooDeep, st)
-  | n + 1 => fun name st =>
+/-- `UseOptionFile` with `n` more nesting levels allowed (ampl/mp 5ace2c7: beyond 32 nested option
+files `mp::Error` "nested too deeply" is thrown, before the name is saved; so a file that names
+itself ends with an error).  A missing file throws `mp::Error`; the lines are parsed with
+`option_flag_save_`, i.e. the flags `ParseOptions` was called with (never FROM_COMMAND_LINE added
+for argv). -/
+def fileLevel (c : Call) : Nat → Bytes → (St → St) → St → Outcome × St
+  | 0 => fun name _ st => (.threwError, { st with errs := .fileNesting name :: st.errs })
+  | n + 1 => fun name save st0 =>
+    let st := save st0
     match c.files.find? (fun f => f.1 == name) with
     | none => (.threwError, { st with errs := .fileError name :: st.errs })
     | some f =>
       parseMany { table := c.table, noEcho := c.noEcho, cmdLine := c.cmdLineFlag, throwing := c.throwing,
                   onFile := fileLevel c n } (fileLines f.2) st
 
-def maxFileDepth : Nat := 8
+/-- `if (nesting > 32) MP_RAISE(...)` -/
+def maxFileDepth : Nat := 32
 
 /-- `BasicSolver::ParseOptions(argv, flags)`; result: outcome, final state
 (`has_errors_` was reset: the return value is `errs.isEmpty`). -/
